@@ -152,11 +152,17 @@ def _r20d(rep):
     f2 = core.find_def(QHA, "BulkModulus.fit_to_eos")
     rets = [core.src(s.value) for s in ast.walk(f2) if isinstance(s, ast.Return)]
     un = [core.src(s.targets[0]) for s in ast.walk(f2) if isinstance(s, ast.Assign) and "fit_to_eos" in core.src(s.value)]
-    rep.instance("R20d", QHA, "BulkModulus.fit_to_eos", f"{un} -> {rets}", un == ["(e, b, bp, ev)"] and rets == ["(e, b, bp, ev)"],
+    # name-independent: the tuple unpacked from the fit is returned element by element in the same order
+    rep.instance("R20d", QHA, "BulkModulus.fit_to_eos", f"{un} -> {rets}", len(un) == 1 and len(rets) == 1 and un[0] == rets[0] and un[0].count(",") == 3,
                  "BulkModulus.fit_to_eos reorders the parameters", line=f2.lineno, obligation=True)
     fe = core.find_def(EOS, "fit_to_eos")
     calls = [n for n in ast.walk(fe) if isinstance(n, ast.Call) and core.src(n.func) == "fit.fit"]
-    ok = bool(calls) and core.src(calls[0].args[0]) == "[fe[len(fe) // 2], 1.0, 4.0, volumes[len(volumes) // 2]]"
+    ps = [a.arg for a in fe.args.args]
+    ok = False
+    if calls and isinstance(calls[0].args[0], ast.List) and len(calls[0].args[0].elts) == 4 and len(ps) >= 2:
+        e0, b0, bp0, v0 = calls[0].args[0].elts
+        # (an energy taken from the energies, a positive number, a positive number, a volume taken from the volumes)
+        ok = ps[1] in {x.id for x in ast.walk(e0) if isinstance(x, ast.Name)} and ps[0] in {x.id for x in ast.walk(v0) if isinstance(x, ast.Name)} and isinstance(b0, ast.Constant) and isinstance(bp0, ast.Constant) and b0.value > 0 and bp0.value > 0
     rep.instance("R20d", EOS, "fit_to_eos", core.src(calls[0]) if calls else "<vanished>", ok,
                  "initial guess is not ordered (energy, B0, B0', volume)", line=fe.lineno, obligation=True)
     # documented order in each EOS docstring
